@@ -57,6 +57,7 @@ def floors(tier):
     f = {"positive": 20000, "negative": 10000, "through_validator": 1000, "hostile_first": 300,
          "hostile_middle": 300, "hostile_last": 300, "distinct_nontrivial": 10000, "short_lived_resolutions": 5000, "whole_documents_through_resolver": 100, "document_named_like_a_metaschema": 150, "document_named_like_a_store_entry": 80,
          "reused_validator_pointer_sequences": 500}
+    f["neg:index_beyond_int_conversion_limit"] = 40
     for k in ("missing_key", "index_eq_len", "index_gt_len", "non_index_token", "token_on_scalar", "token_on_string",
               "disguised_in_range_index"):
         f["neg:" + k] = 500
@@ -340,6 +341,10 @@ def negative(ctx, rng, doc):
                 bad, cls = str(len(target)), "index_eq_len"
             elif r < 0.5:
                 bad, cls = str(len(target) + rng.randrange(1, 10 ** rng.choice([1, 3, 25]))), "index_gt_len"
+                if rng.random() < 0.08:
+                    # more digits than int() converts by default (sys.get_int_max_str_digits() == 4300)
+                    bad = "9" * rng.choice([4300, 4301, 5000, 12000])
+                    ctx.count("neg:index_beyond_int_conversion_limit")
             elif r < 0.75 or not target:
                 bad, cls = rng.choice(NON_INDEX), "non_index_token"
             else:
